@@ -100,7 +100,17 @@ def _case(draw):
                 d[2]["args"] = [var_names(spec)[0]]
                 break
     state = {v: draw(gs.xval) for v in var_names(spec)}
-    return {"spec": spec, "state": state, "time": draw(st.sampled_from([0.0, 0.5, 2.0])), "untranslatable": unt}
+    rename = None
+    if not unt and draw(st.integers(0, 9)) == 0:
+        # component names end up as parameter names of the generated functions
+        cands = [d[1] for d in spec["decls"] if d[0] in ("parameter", "variable")]
+        rename = [draw(st.sampled_from(cands)), draw(st.sampled_from(PY_BREAKS + PY_HARMLESS))]
+    return {"spec": spec, "state": state, "time": draw(st.sampled_from([0.0, 0.5, 2.0])), "untranslatable": unt, "rename": rename}
+
+
+PY_BREAKS: list[str] = []  # (names that are no identifiers were here until the generator learnt to derive parameter names from them)
+# no identifiers, Python keywords, names the generated module uses itself, names that only look special: all have to work
+PY_HARMLESS = ["x y", "k-1", "2x", "α β", "lambda", "in", "is", "class", "def", "None", "as", "return", "if", "math", "Model", "Derived", "InitialAssignment", "type", "E", "PI", "self", "fn", "float"]
 
 
 def strategy(tier: str):
@@ -128,6 +138,13 @@ def examine(case: dict, ctx) -> Outcome:
 
     out = Outcome()
     spec = case["spec"]
+    special = None
+    if case.get("rename"):
+        from checks.c07_codegen import _rename
+
+        old_, special = case["rename"]
+        spec = {"decls": _rename(spec["decls"], old_, special)}
+        case = {**case, "state": _rename(case["state"], old_, special)}
     uses = _uses(spec)
     by_fn: dict[tuple, set] = {}
     by_name: dict[str, set] = {}
@@ -140,7 +157,7 @@ def examine(case: dict, ctx) -> Outcome:
     mathuser = any(name in MATH_FNS for _, name, _ in uses)
     dup_args = any(len(set(a)) < len(a) for _, _, a in uses)
     has_ia = any(k in ("variable", "parameter") and "ia" in p for k, _, p in spec["decls"])
-    out.classes = [c for c, f in [("shared_function", shared), ("name_collision", collision), ("same_name_two_arities", arity_collision), ("math_user", mathuser), ("repeated_argument", dup_args), ("initial_assignment", has_ia), ("untranslatable", case["untranslatable"])] if f]
+    out.classes = [c for c, f in [("shared_function", shared), ("name_collision", collision), ("same_name_two_arities", arity_collision), ("math_user", mathuser), ("repeated_argument", dup_args), ("initial_assignment", has_ia), ("untranslatable", case["untranslatable"]), ("name_breaking_python", special in PY_BREAKS), ("name_used_by_generated_module_or_harmless", special in PY_HARMLESS)] if f]
     root = "name-collision" if collision else ("math-user" if mathuser else ("repeated-argument" if dup_args else ("shared-function" if shared else ("initial-assignment" if has_ia else "plain"))))
 
     try:
@@ -182,6 +199,9 @@ def examine(case: dict, ctx) -> Outcome:
         exec(compile(src, "<generated-mxlpy>", "exec"), ns)  # noqa: S102
         m2 = ns["create_model"]()
     except Exception as e:  # noqa: BLE001
+        if special in PY_BREAKS:
+            out.bad("generated-source-fails:name-not-usable-as-python-identifier", name=special, error=repr(e)[:200], code=src[:500])
+            return out
         out.bad(f"generated-source-fails:{type(e).__name__}:{root}", error=repr(e)[:200], code=src[:800])
         return out
     try:
@@ -215,7 +235,7 @@ def examine(case: dict, ctx) -> Outcome:
 
 def floors(ctx) -> list[str]:
     c = []
-    for k in ["shared_function", "name_collision", "same_name_two_arities", "math_user", "initial_assignment", "untranslatable", "repeated_argument"]:
+    for k in ["shared_function", "name_collision", "same_name_two_arities", "math_user", "initial_assignment", "untranslatable", "repeated_argument", "name_used_by_generated_module_or_harmless"]:
         if ctx.classes.get(k, 0) < 8:
             c.append(f"class {k} only {ctx.classes.get(k, 0)}")
     return c
